@@ -291,3 +291,26 @@ reg("C15", "c15", [("ops", "plain", 3), ("histories", "plain", 1)], "exploration
                "(typecode, size, every element, accepted-vs-refused, object identity) with a reference model.",
     level_note="Trusts vlib/ref_dense.py.",
     design_ref="4/C15")
+
+reg("C16", "c16", [("ops", "plain", 5), ("histories", "plain", 2), ("ops_asan", "asan", 6), ("histories_asan", "asan", 3)], "exploration",
+    rule="ops: Hypothesis draws one operation on spmatrix objects (real/complex, sizes 0..4 x 0..4, triplets with duplicates, "
+         "explicit zeros, empty rows/columns): construction from triplets (lists, tuples, integer matrices; with and without "
+         "size; out-of-range indices), sparse() (single and block form), spdiag(), 1- and 2-argument indexing and indexed "
+         "assignment with int / slice / list / integer-matrix keys incl. negative entries, duplicates and out-of-range "
+         "values and number / dense / sparse right-hand sides of right and wrong size, + - * for sparse/sparse and "
+         "sparse/dense pairs in both orders, scalar operations, in-place operators, T/H/real/imag/abs, V assignment, size "
+         "change, and base.axpy/gemv/gemm/syrk/symv on every sparse/dense operand combination incl. partial=True. Each "
+         "is executed on the sparse operands and on their dense copies. histories: 3-10 mutating steps on one object "
+         "(and its dense image). The extension modules are built with AddressSanitizer. Non-trivial = accepted operation "
+         "on a non-empty pattern with a list/matrix index, a sparse right-hand side, a binary/in-place operation or a "
+         "mixed product (ops); >= 3 successful mutations (histories).",
+    assumptions=["cvxopt's dense matrices are the reference (pinned independently by C15)",
+                 "for assignments with duplicate indices on the left-hand side and a matrix right-hand side only "
+                 "structural validity is judged (the manual defines no order of writes)",
+                 "products are compared to 1e-12 relative, everything else exactly (dyadic data)"],
+    technique="property-based differential testing sparse-vs-dense (Hypothesis) with a CCS validity invariant, under AddressSanitizer",
+    level_text="~6e4 (quick) / 2e6 (thorough) generated sparse operations and ~1.2e4 / 3e5 mutation histories; dense image, "
+               "result type, exception class and CCS validity checked after every step; ASan reports and crashes of the "
+               "interpreter are attributed to the journaled case.",
+    level_note="Trusts cvxopt dense matrices (C15) as reference and the ASan runtime.",
+    design_ref="4/C16")
